@@ -3,109 +3,6 @@
 pub use gixsim_rt::{driver, fsx, io, prng, rt};
 mod scenarios;
 
-use driver::Tier;
-
-fn arg_val(args: &[String], name: &str) -> Option<String> {
-    args.iter().position(|a| a == name).and_then(|i| args.get(i + 1).cloned())
-}
-
-fn disable_aslr_and_reexec() {
-    if std::env::var_os("GIXSIM_NOASLR").is_some() {
-        return;
-    }
-    unsafe {
-        const ADDR_NO_RANDOMIZE: libc::c_ulong = 0x0040000;
-        let cur = libc::personality(0xffff_ffff);
-        if cur >= 0 && libc::personality(cur as libc::c_ulong | ADDR_NO_RANDOMIZE) >= 0 {
-            std::env::set_var("GIXSIM_NOASLR", "1");
-            use std::os::unix::process::CommandExt;
-            let args: Vec<String> = std::env::args().collect();
-            let e = std::process::Command::new("/proc/self/exe").args(&args[1..]).exec();
-            eprintln!("gixsim: re-exec failed: {e}");
-        }
-    }
-}
-
 fn main() {
-    disable_aslr_and_reexec();
-    rt::install_panic_hook();
-    let args: Vec<String> = std::env::args().collect();
-    let cmd = args.get(1).map(String::as_str).unwrap_or("help");
-    let env_seed = std::env::var("VERIF_SEED").ok().and_then(|s| s.parse::<u64>().ok());
-    let seed = arg_val(&args, "--seed").and_then(|s| s.parse().ok()).or(env_seed).unwrap_or(0x5EED);
-    let ncpu = std::thread::available_parallelism().map_or(4, |n| n.get());
-    let jobs_cli: Option<usize> = arg_val(&args, "--jobs").and_then(|s| s.parse().ok());
-    let _ = ncpu;
-    let tier = match arg_val(&args, "--tier").or_else(|| std::env::var("VERIF_TIER").ok()).as_deref() {
-        Some("thorough") => Tier::Thorough,
-        _ => Tier::Quick,
-    };
-    let runs = arg_val(&args, "--runs").and_then(|s| s.parse().ok());
-    let max_wall = arg_val(&args, "--max-wall").and_then(|s| s.parse().ok()).unwrap_or(match tier {
-        Tier::Quick => 600,
-        Tier::Thorough => 7200,
-    });
-    let _ = std::fs::create_dir_all(driver::sandbox_base());
-    let code = match cmd {
-        "check" => {
-            let prop = args.get(2).cloned().unwrap_or_default();
-            match scenarios::for_property(&prop) {
-                Some(s) => driver::check(s, &prop, tier, seed, jobs_cli.unwrap_or_else(|| s.jobs_hint().min(ncpu)), runs, max_wall),
-                None => {
-                    eprintln!("gixsim: no scenario decides property {prop}");
-                    2
-                }
-            }
-        }
-        "replay" => {
-            let path = args.get(2).cloned().unwrap_or_default();
-            driver::replay(std::path::Path::new(&path), &scenarios::all(), args.iter().any(|a| a == "--trace"))
-        }
-        "one" => {
-            // debugging aid: one seed of one property, trace printed
-            let prop = args.get(2).cloned().unwrap_or_default();
-            match scenarios::for_property(&prop) {
-                Some(s) => {
-                    let w = s.generate(seed, tier, &prop);
-                    println!("workload: {}", serde_json::to_string(&w).unwrap());
-                    let shm = driver::new_shm();
-                    let spec = driver::RunSpec { scenario: s, seed, tier, property: &prop, workload: &w, replay: None, strict: false, trace: args.iter().any(|a| a == "--trace"), keep_sandbox: args.iter().any(|a| a == "--keep") };
-                    let (end, dec) = driver::run_one(&spec, &shm);
-                    match end {
-                        driver::ChildEnd::Report(r) => {
-                            for l in &r.trace {
-                                println!("{l}");
-                            }
-                            println!("summary: {}", r.summary);
-                            println!("steps={} switches={} decisions={} log_hash={:016x} probes={:?} faults={:?}", r.steps, r.switches, dec.len(), r.log_hash, r.probes, r.faults);
-                            for v in &r.violations {
-                                println!("violation: [{}] {} :: {}", v.property, v.sig, v.detail);
-                            }
-                            if let Some(e) = r.harness_error {
-                                println!("harness error: {e}");
-                            }
-                            0
-                        }
-                        other => {
-                            println!("{other:?} (decisions={})", dec.len());
-                            1
-                        }
-                    }
-                }
-                None => 2,
-            }
-        }
-        "list" => {
-            for s in scenarios::all() {
-                println!("{} {:?}", s.name(), s.properties());
-            }
-            0
-        }
-        _ => {
-            eprintln!("usage: gixsim check <PROP> [--tier quick|thorough] [--seed N] [--jobs J] [--runs N] | replay <file> [--trace] | one <PROP> --seed N [--trace] | list");
-            2
-        }
-    };
-    driver::cleanup_worker_dirs();
-    std::process::exit(code);
+    gixsim_rt::cli::cli_main(scenarios::all());
 }
